@@ -369,9 +369,13 @@ def tie(ctx):
                 nonobs.setdefault(key, []).append((s, cls))
     # ---- violations (direct oracle), with a minimal script each
     bad_observers = set()
+    handled = set()     # one minimal script per (family, observer or group, effect): the first state that shows it
     for c, st, problems in pending:
         for tag, who, text in problems:
             fam = G.family(c["schema"])
+            if (fam, who, tag) in handled:
+                continue
+            handled.add((fam, who, tag))
             if tag == "monitor-failed":
                 divergences.append({"input": "%s | state %d | %s" % (c["schema"], st, who), "impl": text, "model": "monitor commands answer"})
                 continue
